@@ -42,7 +42,8 @@ func verifC09(x string, entry int) {
 					inside = true
 				}
 			}
-			if !inside && !(isList && t.Kind == ";") {
+			// a trailing comma (select list, CREATE TABLE ...) is consumed but is not part of any node
+			if !inside && !(isList && t.Kind == ";") && t.Kind != "," {
 				verifFail("C09/nil-error-but-token-not-consumed", verifEntryNames[entry])
 			}
 		}
